@@ -6,8 +6,11 @@ HOME = os.path.dirname(os.path.dirname(os.path.abspath(__file__)))
 mpath = os.path.join(HOME, "seeded", "MATRIX.json")
 matrix = json.load(open(mpath)) if os.path.exists(mpath) else {}
 ids = [a.upper() for a in sys.argv[1:]] or sorted(d for d in os.listdir(os.path.join(HOME, "seeded")) if d.startswith("C"))
+jobs = []
 for pid in ids:
-    patch = os.path.join(HOME, "seeded", pid, "patch.diff")
+    for sub, tag in (("", pid), ("round2", pid + ".r2")):
+        jobs.append((pid, os.path.join(HOME, "seeded", pid, sub, "patch.diff"), tag))
+for pid, patch, tag in jobs:
     if not os.path.exists(patch) or not os.path.exists(os.path.join(HOME, "checks", pid.lower() + ".py")):
         continue
     r = subprocess.run([os.path.join(HOME, "tools", "mut.py"), pid, "--patch", patch], stdout=subprocess.PIPE,
@@ -15,7 +18,7 @@ for pid in ids:
     out = r.stdout
     verdict = "KILLED" if "KILLED" in out else ("SURVIVED" if "SURVIVED" in out else ("PATCH-FAILED" if "FAILED" in out or "rej" in out else "ERROR"))
     fails = [l.strip() for l in out.splitlines() if l.strip().startswith("failure ")][:2]
-    matrix[pid] = {"verdict": verdict, "tier": "quick", "failures": fails}
-    print(pid, verdict, fails[:1])
+    matrix[tag] = {"verdict": verdict, "tier": "quick", "failures": fails}
+    print(tag, verdict, fails[:1])
     sys.stdout.flush()
     json.dump(matrix, open(mpath, "w"), indent=1, sort_keys=True)
